@@ -15,7 +15,7 @@ HARNESS = os.environ.get("VERIF_HARNESS", os.path.join(ROOT, "harness"))
 OUT = os.environ.get("VERIF_OUT", ROOT)   # where evidence/ and replays/ go (scratch dir for mutant runs)
 FV = os.path.join(HARNESS, "target", "release", "fv")
 SPECS = os.path.join(ROOT, "specs")
-JAVA_OPTS = "-Xss1g -XX:+UseParallelGC -Dtlc2.tool.queue.IStateQueue=StateDeque"
+JAVA_OPTS = "-Xss1g -XX:+UseParallelGC -XX:ParallelGCThreads=2 -XX:CICompilerCount=2 -Dtlc2.tool.queue.IStateQueue=StateDeque"
 
 
 class ToolError(Exception):
